@@ -640,6 +640,81 @@ def _advance_counts(stmts, cursors, acc=0):
     return _advance_counts(rest, cursors, acc + k)
 
 
+def char_case_progress(ctx, rep, clause):
+    """scanning loops of the formula tokenizers, `while CUR < len(S)` with tests of S[CUR] against literal characters:
+    for every class of the current character (each literal it is compared with, and "any other") the body is followed
+    with the tests on S[CUR] decided -- the character is touched only through comparisons, so the classes are the whole
+    case analysis -- and has to move the cursor forward, raise, return or break.  An inner `while` counts only when its
+    test is decided true on entry (it runs at least once) and its own body advances."""
+    from ..guards import GuardEval, UNK as U
+    program = ctx.program
+    n = 0
+    for fq in ('peptacular.chem.chem_util:_split_chem_formula',):
+        f = program.func(fq)
+        for loop in [x for x in walk_own(f.node) if isinstance(x, ast.While)]:
+            # outermost scanning loops only
+            if any(isinstance(y, ast.While) and y is not loop and any(z is loop for z in ast.walk(y))
+                   for y in walk_own(f.node)):
+                continue
+            cur = subj = None
+            for c_ in ast.walk(loop.test):
+                if isinstance(c_, ast.Compare) and len(c_.ops) == 1 and isinstance(c_.ops[0], ast.Lt) and \
+                        isinstance(c_.left, ast.Name) and isinstance(c_.comparators[0], ast.Call) and \
+                        norm_stmt(c_.comparators[0].func) == 'len' and c_.comparators[0].args:
+                    cur, subj = c_.left.id, norm_stmt(c_.comparators[0].args[0])
+            if cur is None:
+                raise AnalysisError(f'{fq}: scanning loop `while {norm_stmt(loop.test)[:40]}` has no cursor < len(..) test')
+            here = f'{subj}[{cur}]'
+            chars = set()
+            for c_ in ast.walk(loop):
+                if isinstance(c_, ast.Compare) and norm_stmt(c_.left) == here and len(c_.comparators) == 1 and \
+                        isinstance(c_.comparators[0], ast.Constant) and isinstance(c_.comparators[0].value, str):
+                    chars |= set(c_.comparators[0].value)
+            classes = sorted(chars) + ['\x00other']
+
+            def advances(st) -> bool:
+                if isinstance(st, ast.AugAssign) and norm_stmt(st.target) == cur and isinstance(st.op, ast.Add) and \
+                        isinstance(st.value, ast.Constant) and isinstance(st.value.value, int) and st.value.value > 0:
+                    return True
+                if isinstance(st, ast.Assign) and norm_stmt(st.targets[0]) == cur and isinstance(st.value, ast.BinOp) and \
+                        isinstance(st.value.op, ast.Add) and isinstance(st.value.right, ast.Constant) and \
+                        isinstance(st.value.right.value, int) and st.value.right.value > 0:
+                    return True    # cursor = <position found at or after the cursor> + k
+                return False
+
+            def follow(stmts, ge) -> bool:
+                """True when every path through stmts advances the cursor or leaves the loop"""
+                for k_, st in enumerate(stmts):
+                    if isinstance(st, (ast.Raise, ast.Return, ast.Break)) or advances(st):
+                        return True
+                    if isinstance(st, ast.Continue):
+                        return False
+                    if isinstance(st, ast.If):
+                        v = ge.eval(st.test)
+                        rest = list(stmts[k_ + 1:])
+                        if v is U:
+                            return follow(list(st.body) + rest, ge) and follow(list(st.orelse) + rest, ge)
+                        return follow((list(st.body) if v else list(st.orelse)) + rest, ge)
+                    if isinstance(st, ast.While):
+                        if ge.eval(st.test) is True and follow(list(st.body), ge):
+                            return True
+                        continue
+                    if isinstance(st, (ast.For, ast.Try, ast.With)):
+                        continue     # not relied upon
+                return False
+            for ch in classes:
+                n += 1
+                env = {here: ch if ch != '\x00other' else 'x', f'{cur} < len({subj})': True}
+                ok = follow(list(loop.body), GuardEval(env))
+                shown = repr(ch) if ch != '\x00other' else 'any other character'
+                ob(rep, 'EXC-progress', fq, f'scanning loop `while {norm_stmt(loop.test)[:40]}`: the cursor moves when the '
+                   f'current character is {shown}', ok, 'advances, raises, returns or breaks',
+                   f'when {here} is {shown} a path through the loop body neither moves `{cur}` forward nor leaves the '
+                   f'loop: the tokenizer hangs (and keeps appending) on such a formula -- parse_chem_formula, chem_mass '
+                   f'and the mass of a peptide with such a Formula: modification never return', f.loc(loop), clause)
+    rep.floor('EXC-progress', 'character classes followed through the formula tokenizer', n, 3)
+
+
 def loop_progress(ctx, rep, clause):
     program = ctx.program
     cls = program.cls(PARSER)
@@ -842,6 +917,7 @@ def check(ctx, rep):
     raise_discipline(ctx, rep, parse_graph, 'C09c', 'parse')
     handler_discipline(ctx, rep, parse_graph, 'C09c', 'parse')
     loop_progress(ctx, rep, 'C09d')
+    char_case_progress(ctx, rep, 'C09d')
     error_marker_bounds(ctx, rep, 'C09a')
     designed_zero(ctx, rep, 'C09e')
     deferred = reachable(an, program, ['peptacular.mass_calc:mod_mass', 'peptacular.chem.chem_calc:mod_comp',
